@@ -455,12 +455,26 @@ ADDRESS_VARS = {'addr', 'address', 'off', 'offset', 'start', 'previous', 'curren
 
 def _is_address_term(t):
     """does the sum involve a register address / area extent (and not only handles and counters)?"""
-    for x in sym.subterms(t):
+    # the VALUES the sum is made of: arithmetic is descended into; a field counts by its own name - what designates the
+    # object it belongs to (a handle found by a search for `addr`, an index) is no part of the value
+    def leaves(x):
+        if not isinstance(x, tuple):
+            return
+        if x[0] in ('+', '-', '*', '/', '%', '<<', '>>', '&b', '|b', '^b', 'neg', '~'):
+            for y in x[1:]:
+                yield from leaves(y)
+        elif x[0] == 'cast':
+            yield from leaves(x[2])
+        else:
+            yield x
+    for x in leaves(t):
         if x[0] == 'f' and x[2] in ADDRESS_FIELDS:
             return True
         if x[0] == 'v' and _re.sub(r'~\d+$', '', x[1].split(':')[-1]) in ADDRESS_VARS:
             return True
         if x[0] == 'h' and _re.sub(r'^loop@\d+:', '', x[1]) in ADDRESS_VARS:
+            return True
+        if x[0] in ('fv', 'call') and any(isinstance(y, tuple) and y[0] == 'f' and y[2] in ADDRESS_FIELDS for y in sym.subterms(x) if y is not x) and x[0] == 'fv' and x[2] in ADDRESS_FIELDS:
             return True
     return False
 
